@@ -17,7 +17,7 @@
 """Python disassembly functions specific to wordcode from Python 3.6+
 """
 from xdis.bytecode import op_has_argument
-from xdis.cross_dis import _get_cache_size_313, unpack_opargs_bytecode_310
+from xdis.cross_dis import jump_cache_size, unpack_opargs_bytecode_310
 
 
 def unpack_opargs_wordcode(code, opc):
@@ -58,13 +58,13 @@ def findlabels(code, opc):
     offsets = []
     for offset, op, arg in unpack_opargs(code, opc):
         if arg is not None:
+            if op in opc.JREL_OPS:
+                if opc.version_tuple >= (3, 11) and "JUMP_BACKWARD" in opc.opname[op]:
+                    arg = -arg
             arg2 = arg * 2 if opc.version_tuple >= (3, 10) else arg
             if op in opc.JREL_OPS:
-                if opc.version_tuple >= (3, 11) and opc.opname[op] in ("JUMP_BACKWARD", "JUMP_BACKWARD_NO_INTERRUPT"):
-                    arg = -arg
                 jump_offset = offset + 2 + arg2
-                if opc.version_tuple >= (3,13):
-                    jump_offset += 2 * _get_cache_size_313(opc.opname[op])
+                jump_offset += 2 * jump_cache_size(opc.opname[op], opc.version_tuple)
             elif op in opc.JABS_OPS:
                 jump_offset = arg2
             else:
